@@ -948,78 +948,79 @@ theorem Out_scalar (o : Opts) (v : Val) (hne : isEmptyContainer (prune v) = fals
     (hr : Ren (dropEmptyIf o v) (scalarText v)) : Out o v (scalarText v) :=
   Or.inr ⟨by simp [hne], hr⟩
 
+/-- the depth guard `indent_ < 111 or json_convention` of the fixed code (C11-e) is always open in
+a JSON export -/
+theorem guard_json (lvl : Nat) : (decide (lvl < 111) || jsonConv) = true := by
+  simp [jsonConv]
+
 mutual
 theorem pretty_ren (o : Opts) (hp : o.pairsOn = false) : ∀ (t : Val), wf t = true → ∀ (lvl : Nat),
-    lvl + depth t ≤ 111 → Out o t (pretty o lvl t)
-  | .none, _, lvl, _ => by
+    Out o t (pretty o lvl t)
+  | .none, _, lvl => by
     simp only [pretty]
     exact Out_scalar o _ (by simp [prune, isEmptyContainer]) (by unfold dropEmptyIf; split <;> simp [prune, Ren])
-  | .bool b, _, lvl, _ => by
+  | .bool b, _, lvl => by
     simp only [pretty]
     exact Out_scalar o _ (by simp [prune, isEmptyContainer]) (by unfold dropEmptyIf; split <;> simp [prune, Ren])
-  | .int i, _, lvl, _ => by
+  | .int i, _, lvl => by
     simp only [pretty]
     exact Out_scalar o _ (by simp [prune, isEmptyContainer]) (by unfold dropEmptyIf; split <;> simp [prune, Ren])
-  | .str x, _, lvl, _ => by
+  | .str x, _, lvl => by
     simp only [pretty]
     exact Out_scalar o _ (by simp [prune, isEmptyContainer]) (by unfold dropEmptyIf; split <;> simp [prune, Ren])
-  | .flt r, hw, lvl, _ => by
+  | .flt r, hw, lvl => by
     simp only [pretty]
     simp only [wf] at hw
     exact Out_scalar o _ (by simp [prune, isEmptyContainer])
       (by unfold dropEmptyIf; split <;> simp [prune, Ren, scalarText, hw])
-  | .list c xs, hw, lvl, hd => by
+  | .list c xs, hw, lvl => by
     rw [pretty_list_np hp]
     apply Out_of_AccL
     simp only [wf] at hw
-    simp only [depth] at hd
-    have := items_ren o hp xs hw lvl [] [] (by omega) (by omega) (by simp [AccL])
+    have := items_ren o hp xs hw lvl [] [] (by simp [AccL])
     simpa using this
-  | .dict c kvs, hw, lvl, hd => by
+  | .dict c kvs, hw, lvl => by
     simp only [pretty]
     apply Out_of_AccK
     simp only [wf, Bool.and_eq_true] at hw
-    simp only [depth] at hd
-    have := kvs_ren o hp kvs hw.1 lvl (condense kvs) [] [] (by omega) (by omega) (by simp [AccK])
+    have := kvs_ren o hp kvs hw.1 lvl (condense kvs) [] [] (by simp [AccK])
     simpa using this
 theorem items_ren (o : Opts) (hp : o.pairsOn = false) : ∀ (xs : List Val), wfL xs = true →
-    ∀ (lvl : Nat) (acc : Str) (done : List Val), lvl < 111 → lvl + 1 + depthL xs ≤ 111 →
+    ∀ (lvl : Nat) (acc : Str) (done : List Val),
     AccL done acc → AccL (done ++ dropL o xs) (prettyItems o lvl xs acc)
-  | [], _, lvl, acc, done, _, _, ha => by
+  | [], _, lvl, acc, done, ha => by
     have : dropL o [] = [] := by unfold dropL; split <;> simp [pruneList]
     simpa [prettyItems, this] using ha
-  | x :: xs, hw, lvl, acc, done, hl, hd, ha => by
+  | x :: xs, hw, lvl, acc, done, ha => by
     simp only [wfL, Bool.and_eq_true] at hw
-    simp only [depthL] at hd
-    have hx := pretty_ren o hp x hw.1 (lvl + 1) (by omega)
-    simp only [prettyItems, hl, ↓reduceIte]
+    have hx := pretty_ren o hp x hw.1 (lvl + 1)
+    simp only [prettyItems, guard_json, ↓reduceIte]
     rcases hx with ⟨hs, he, hnil⟩ | ⟨hne, hr⟩
     · rw [hnil, dropL_cons_drop xs hs he]
       simp only [hs, List.isEmpty_nil, Bool.and_self, ↓reduceIte]
-      exact items_ren o hp xs hw.2 lvl acc done hl (by omega) ha
+      exact items_ren o hp xs hw.2 lvl acc done ha
     · have hsub : (pretty o (lvl + 1) x).isEmpty = false := by
         have := Ren_ne_nil hr
         cases h : pretty o (lvl + 1) x <;> simp_all
       rw [dropL_cons_keep xs hne]
       simp only [hsub, Bool.and_false, Bool.false_eq_true, ↓reduceIte]
       have ha' := AccL_step ha hr (Ws_nlAt o (lvl + 1))
-      have := items_ren o hp xs hw.2 lvl _ _ hl (by omega) ha'
+      have := items_ren o hp xs hw.2 lvl _ _ ha'
       simpa [joinItem_eq] using this
 theorem kvs_ren (o : Opts) (hp : o.pairsOn = false) : ∀ (kvs : List (Str × Val)), wfK kvs = true →
-    ∀ (lvl : Nat) (cond : Bool) (acc : Str) (done : List (Str × Val)), lvl < 111 → lvl + 1 + depthK kvs ≤ 111 →
+    ∀ (lvl : Nat) (cond : Bool) (acc : Str) (done : List (Str × Val)),
     AccK done acc → AccK (done ++ dropK o kvs) (prettyKvs o lvl cond kvs acc)
-  | [], _, lvl, cond, acc, done, _, _, ha => by
+  | [], _, lvl, cond, acc, done, ha => by
     have : dropK o [] = [] := by unfold dropK; split <;> simp [pruneKvs]
     simpa [prettyKvs, this] using ha
-  | (k, v) :: kvs, hw, lvl, cond, acc, done, hl, hd, ha => by
+  | (k, v) :: kvs, hw, lvl, cond, acc, done, ha => by
     simp only [wfK, Bool.and_eq_true] at hw
-    simp only [depthK] at hd
-    have hx := pretty_ren o hp v hw.1 (lvl + 1) (by omega)
-    simp only [prettyKvs, hl, ↓reduceIte]
+    have hx := pretty_ren o hp v hw.1 (lvl + 1)
+    simp only [prettyKvs, guard_json, ↓reduceIte]
     rcases hx with ⟨hs, he, hnil⟩ | ⟨hne, hr⟩
     · rw [hnil, dropK_cons_drop kvs hs he]
       simp only [hs, List.isEmpty_nil, Bool.and_self, ↓reduceIte]
-      exact kvs_ren o hp kvs hw.2 lvl cond acc done hl (by omega) ha
+      exact kvs_ren o hp kvs hw.2 lvl cond acc done ha
     · have hsub : (pretty o (lvl + 1) v).isEmpty = false := by
         have := Ren_ne_nil hr
         cases h : pretty o (lvl + 1) v <;> simp_all
@@ -1030,7 +1031,7 @@ theorem kvs_ren (o : Opts) (hp : o.pairsOn = false) : ∀ (kvs : List (Str × Va
         · exact Ws_sp o
         · exact Ws_nlAt o (lvl + 1)
       have ha' := AccK_step (k := k) ha hr hw' (Ws_sp o)
-      have := kvs_ren o hp kvs hw.2 lvl cond _ _ hl (by omega) ha'
+      have := kvs_ren o hp kvs hw.2 lvl cond _ _ ha'
       simpa [joinItem_eq] using this
 end
 
